@@ -430,6 +430,75 @@ def conventions():
     return out
 
 
+
+def fn_contexts(items):
+    """item = [N, name, qubits]: the same named gate used in every context a register offers: inside a
+    CliffordCircuit / Circuit, plain, layer-compiled and circuit-compiled, copied (before and after the
+    gate has been run backward / compiled), forward and backward: the action on the whole Pauli group
+    must be U P U^dag resp. U^dag P U for the textbook U."""
+    n = nt = 0
+    viol = []
+    pc = lib.pc
+    for item in items:
+        N, name, qs = item
+        qs = [int(q) for q in qs]
+        cls = gate_class(name, qs)
+        label = '%s(%s) on N=%d' % (name, ','.join(map(str, qs)), N)
+        U = unitary(name, qs, N, make_gate(name, qs))
+        Ud = U.conj().T
+        G = ref.all_g(N)
+        gs_in = np.concatenate([G] * 4)
+        ps_in = np.repeat(np.arange(4), len(G))
+        want_f = [U @ ref.mat(g, p) @ Ud for g, p in zip(gs_in, ps_in)]
+        want_b = [Ud @ ref.mat(g, p) @ U for g, p in zip(gs_in, ps_in)]
+
+        def check(ctx, obj, direction):
+            nonlocal n, nt
+            lst = lib.PL(gs_in, ps_in)
+            try:
+                (obj.forward if direction == 'forward' else obj.backward)(lst)
+            except Exception as e:
+                viol.append(V('C11/%s/context=%s/%s-raises-%s' % (cls, ctx, direction, type(e).__name__), item, '%s in context %s: %s raised %s: %s' % (label, ctx, direction, type(e).__name__, e)))
+                return
+            og, op = np.asarray(lst.gs).astype(np.int64), np.asarray(lst.ps).astype(np.int64) % 4
+            want = want_f if direction == 'forward' else want_b
+            n += len(gs_in)
+            nt += len(gs_in)
+            for k in range(len(gs_in)):
+                if not np.allclose(ref.mat(og[k], op[k]), want[k], atol=1e-9):
+                    viol.append(V('C11/%s/context=%s/%s' % (cls, ctx, direction), item, '%s in context %s: %s sends %s to %s, not the textbook conjugation' % (
+                        label, ctx, direction, ref.g_to_str(gs_in[k], ps_in[k]), ref.g_to_str(og[k], op[k]))))
+                    return
+        for ccls, mk in (('CliffordCircuit', lambda: pc.identity_circuit(N)), ('Circuit', lambda: pc.Circuit(N))):
+            for how in ('plain', 'layer-compiled', 'compiled'):
+                c = mk()
+                c.take(make_gate(name, qs))
+                if how == 'layer-compiled':
+                    c.first_layer.compile(N)
+                elif how == 'compiled':
+                    c.compile()
+                for d in ('forward', 'backward'):
+                    check('%s,%s' % (ccls, how), c, d)
+            if ccls == 'CliffordCircuit':
+                c = mk()
+                c.take(make_gate(name, qs))
+                c.compile()
+                c2 = c.copy()
+                for d in ('forward', 'backward'):
+                    check('copy-of-compiled-circuit', c2, d)
+        # gate copies taken at different moments of the gate's life
+        g0 = make_gate(name, qs)
+        check('gate.copy-fresh', g0.copy(), 'forward')
+        check('gate.copy-fresh', g0.copy(), 'backward')
+        g1 = make_gate(name, qs)
+        g1.backward(lib.PL(gs_in, ps_in))      # fills in the lazily computed backward map
+        for d in ('forward', 'backward'):
+            check('gate.copy-after-backward', g1.copy(), d)
+        g2 = make_gate(name, qs).compile()
+        for d in ('forward', 'backward'):
+            check('gate.copy-after-compile', g2.copy(), d)
+    return {'n': n, 'nt': nt, 'viol': viol}
+
 def legs(tier):
     out = []
     Ns = (1, 2, 3, 4)
@@ -440,6 +509,9 @@ def legs(tier):
     for N in (1, 2):
         stab.tableaux(N)
         stab.valid_keyset(N)
+    citems = [it for it in items if it[0] <= 3 or it[1] == 'CNOT']
+    out.append(Leg('contexts', fn_contexts, citems, chunk=2,
+                   bound='every placement of N<=3 (and every CNOT placement of N=4): the gate inside CliffordCircuit / Circuit plain, layer-compiled, circuit-compiled, copy of compiled circuit, gate copies (fresh, after backward, after compile), forward and backward, whole Pauli group'))
     out.append(Leg('states_N1', fn_states, [[1, i] for i in range(48)], chunk=4, src_states=48,
                    bound='all 48 tableaux x %d gate placements' % len(gates_of(1))))
     out.append(Leg('states_N2', fn_states, [[2, i] for i in range(34560)], chunk=60, src_states=34560,
